@@ -132,12 +132,17 @@ def gen(ctx, rng):
     case['table'] = rng.random() < 0.45
     case['taper'] = case['table'] and rng.random() < 0.6      # non-uniform per-point laminate table
     case['amp_in_h'] = amp / h
+    # constant membrane pre-stress carried by the panel (calc_k0 / calc_kT add kG0(N_cte); the internal force must match)
+    case['ncte'] = ([rng.uniform(-1, 1) * 1e3, rng.choice([0., 40.]), rng.choice([0., -25.])] if rng.random() < 0.3 else None)
     return case
 
 
 def run_case(ctx, case, ir, do_v=True):
     fns, consts = ir[case['lean_model']]
     p = pc.make_panel(case)
+    if case.get('ncte'):
+        p.Nxx_cte, p.Nyy_cte, p.Nxy_cte = case['ncte']
+        do_v = False            # V compares the bare kernels; the pre-stress term is added by the Python layer
     pc.quiet(p.calc_k0, silent=True)
     c = np.array(case['c']); dc = np.array(case['dc'])
     nx, ny = case['nxy']
